@@ -728,6 +728,9 @@ func (rt *runtime) toValue(value interface{}) Value {
 			typ := val.Type()
 
 			return objectValue(rt.newNativeFunction(name, file, line, func(c FunctionCall) Value {
+				// Convert and report in the runtime that makes the call: after
+				// Copy() this closure also serves the clones of the function.
+				rt := c.runtime
 				nargs := typ.NumIn()
 
 				if len(c.ArgumentList) != nargs {
